@@ -140,7 +140,7 @@ def gen_vs(r, idx, tier):
         rlabels = []
         for _ in range(r.randint(0, 2)):
             key = r.choice(["reg", "env", "host_1", "zz"]) if r.random() < 0.8 else r.choice(GOODL)
-            own = labels + [p[0] for p in ocon]
+            own = [n for n in labels + [p[0] for p in ocon] if re.match(r"^[a-zA-Z_][a-zA-Z0-9_]*$", n)]   # new_custom must accept the registry
             if own and r.random() < 0.2: key = r.choice(own)       # clashes with one of the metric's own labels: register refuses
             if key == "le": continue        # Registry::new_custom refuses the reserved name (the harness needs a registry that exists)
             if key in [p[0] for p in rlabels]: continue
